@@ -357,3 +357,10 @@ PROPS["C06"]["rule"] += (" extra (race-detector binary): 12 rounds of the txcach
 PROPS["C16"]["coq_props"] = ["C16", "C16b"]
 PROPS["C16"]["assumptions"] = [a for a in PROPS["C16"]["assumptions"] if not a.startswith("LRU / SizeLRU / FIFOSharded satisfy cacher_laws")] + [
     "cacher_laws are PROVED for the models of the sized LRU, the plain LRU, the lruCache wrapper and the FIFO sharded cache (Props/C16b.v); those models are tied to the Go caches by the C15/C20 checks"]
+
+PROPS["C03"]["coq_props"] = ["C03", "C03b"]
+PROPS["C07"]["coq_props"] = ["C07", "C03b"]
+for _p in ("C03", "C07"):
+    PROPS[_p]["assumptions"] = [a for a in PROPS[_p]["assumptions"] if "container/heap" not in a] + [
+        "container/heap is TRANSCRIBED (Txcache/Heap.v: Init/Push/Pop/up/down with fuel proved sufficient) and its Pop is PROVED to return the element the model's "
+        "pick_best / worst_index designates, keeping a heap over the remaining cursors (Props/C03b.v); the whole-loop simulation heap-loop = model loop is composed per step, not stated end to end"]
